@@ -147,3 +147,11 @@ Definition fixedb (S : net) : bool :=
                            (map fst (rrib ri) ++ map fst (rrib rj))
       | None => true
       end) (nbrs ri)) S.
+
+(* no usable route through somebody who is not (any more) in the neighbour table: every per-hop cost below INF belongs
+   to a current neighbour, or is the router's own entry *)
+Definition hops_okb (r : router) : bool :=
+  forallb (fun de : node * entry =>
+    forallb (fun hc : node * N =>
+      negb (snd hc <? INF) || memN (fst hc) (nbrs r) || ((fst hc =? self r) && (fst de =? self r)))
+      (costs (snd de))) (rrib r).
